@@ -534,6 +534,156 @@ def clause5(P, res):
         res.violated(rid, "disconnect-decisions", f"expected >= 25 self-decided Disconnected sites, found {n}")
 
 
+PEER_LIVE = re.compile(r"(receiver_dropped|consumer_dropped|receiver_count|is_disconnected)$")
+
+
+def peer_liveness_reads(b):
+    """events of body b that observe whether the receiving side is still there"""
+    out = []
+    for e in b.calls():
+        a0 = b.path_of_operand(e.args[0]) if e.args else ""
+        if e.is_atomic and e.method == "load" and PEER_LIVE.search(a0):
+            out.append(e)
+        elif e.method in ("receivers_alive", "receiver_alive", "has_receivers", "producer_space"):
+            out.append(e)
+        elif e.method == "is_closed" and re.search(r"Sender", e.callee_full or e.callee):
+            out.append(e)
+        elif e.method == "is_empty" and "tails" in a0:
+            out.append(e)
+    for e in b.events:
+        if e.kind == "assign" and e.data["r"]["k"] in ("use", "bin"):
+            for k in ("o", "a", "b"):
+                o = e.data["r"].get(k)
+                pl = mir.op_place(o) if isinstance(o, dict) else None
+                if pl and pl[1] and PEER_LIVE.search(b.path_of_place(pl)):
+                    out.append(e)
+    return out
+
+
+def send_commits(b):
+    """value-carrying commits of the send side"""
+    out = []
+    for e in b.calls():
+        m = e.method or ""
+        if m in ("fulfill_receiver", "write_slot", "resolve_run", "deliver", "write_batch_unchecked"):
+            out.append(e)
+        elif m == "publish" and re.search(r"MpscShared|UnboundedShared", e.callee):
+            out.append(e)
+        elif m == "push" and "spsc::shared::Ring" in e.callee:
+            out.append(e)
+        elif m == "push_back" and "MpmcChannelInternal" in e.callee:
+            out.append(e)
+        elif m == "write" and "MaybeUninit" in e.callee and b.id.startswith("fibre::spmc::ring_buffer::SpmcShared"):
+            out.append(e)
+    return out
+
+
+def clause6(P, res):
+    rid = "C04-6"
+    res.rule(rid, "no commit without looking for the receiver: every value-carrying commit of a send form (slot write, ring push, chain publish, rendezvous hand-off, mailbox "
+                  "delivery) is dominated by an observation of receiver liveness (receiver_dropped / consumer_dropped / receiver_count / receivers_alive() / the cursor list "
+                  "being empty) in the same function, or every call chain leading to it (<= 4 frames) is — otherwise a send after the last receiver is gone (or closed with "
+                  "a receive still parked) succeeds instead of failing with Closed")
+    callers = {}
+    for b in P.bodies.values():
+        if "::tests::" in b.id or not b.id.startswith("fibre::"):
+            continue
+        for e in b.calls():
+            if e.callee_resolved:
+                callers.setdefault(e.callee_resolved, []).append((b, e))
+    memo = {}
+
+    def guarded(b, pos, depth, stack):
+        live = memo.get(b.id)
+        if live is None:
+            live = memo[b.id] = peer_liveness_reads(b)
+        if any(b.dominated_by_any(pos, {l.pos}) for l in live):
+            return True, []
+        if depth >= 4:
+            return False, [b.id]
+        cs = [(cb, ce) for cb, ce in callers.get(b.id, []) if cb.id not in stack]
+        if not cs:
+            return False, [b.id]
+        for cb, ce in cs:
+            ok, tr = guarded(cb, ce.pos, depth + 1, stack + (b.id,))
+            if not ok:
+                return False, [b.id] + tr
+        return True, []
+
+    n = 0
+    for b in P.bodies.values():
+        if not b.id.startswith("fibre::") or "::tests::" in b.id or not common.in_scope(b.id) or (b.impl_trait or "").endswith("Drop"):
+            continue
+        for k, cmt in enumerate(send_commits(b)):
+            n += 1
+            key = f"{b.id}:{cmt.method}#{k}"
+            ok, tr = guarded(b, cmt.pos, 0, ())
+            if ok:
+                res.holds(rid, key, "commit behind a receiver-liveness observation", where=cmt.loc)
+            else:
+                res.violated(rid, key, f"the {cmt.method} at {cmt.loc} can be reached through {' <- '.join(tr)} without any observation of receiver liveness: the value is handed "
+                             "over / buffered although every receiver may be gone, and the send reports success instead of Closed", where=cmt.loc, witness=tr)
+    if n < 35:
+        res.violated(rid, "send-commit-sites", f"expected >= 35 send-side commit sites, found {n}")
+
+
+def clause7(P, res):
+    rid = "C04-7"
+    res.rule(rid, "oneshot: Disconnected is decided on a fresh look at the slot: where the receive path has seen the state EMPTY and then reads sender_count == 0, every "
+                  "path from that read to a `Disconnected` result passes a branch on a *later* observation of the state (the outcome of the EMPTY->CLOSED "
+                  "compare_exchange, or a reload) — the last sender may have completed its send between the two reads, and the value must be handed out before "
+                  "Disconnected is ever reported")
+    n = 0
+    for b in P.bodies_in("fibre::oneshot::core::OneShotShared::<T>::"):
+        cons = [e for e in b.events if e.kind == "assign" and e.data["r"]["k"] == "agg" and e.data["r"]["variant"] == "Disconnected"]
+        if not cons:
+            continue
+        # edges on which the last state observation said EMPTY
+        empty_edges = []
+        for blk in range(len(b.blocks)):
+            s = None if b.is_cleanup(blk) else b.switch_source(blk)
+            if s and s["kind"] == "cmp" and s["op"] in ("Eq", "Ne"):
+                ks = [b.const_of_operand(s["a"]), b.const_of_operand(s["b"])]
+                if any(k is not None and str(k.get("path", "")).endswith("STATE_EMPTY") for k in ks):
+                    lab = "true" if (s["op"] == "Eq") != bool(s.get("neg")) else "false"
+                    empty_edges += b.edges_by_label(blk).get(lab, [])
+        counts = [e for e in b.calls() if e.is_atomic and e.method == "load" and e.args and b.path_of_operand(e.args[0]).endswith("sender_count")]
+        for li, l in enumerate(counts):
+            if not (empty_edges and b.edges_dominate(empty_edges, l.pos)):
+                continue
+            n += 1
+            key = f"{b.id}:sender_count#{li}"
+            after = b.pos_reach_set(l.pos)
+            later_state_ops = [e for e in b.calls() if e.is_atomic and e.args and b.path_of_operand(e.args[0]).endswith(".state") and e.pos in after
+                               and e.method in ("load", "compare_exchange", "compare_exchange_weak", "swap", "fetch_or", "fetch_and")]
+            # a later call back into the receive path looks at the slot afresh: its verdict is its own (and is itself an instance of this rule)
+            later_state_ops += [e for e in b.calls() if e.pos in after and (e.callee_resolved or "").startswith("fibre::oneshot::core::OneShotShared::<T>::") and e.method in ("try_recv", "poll_recv")]
+            fresh_edges = []
+            for blk in range(len(b.blocks)):
+                if b.is_cleanup(blk):
+                    continue
+                t = b.term(blk)
+                if t["k"] != "switch":
+                    continue
+                if t.get("on", {}).get("kind") == "discr":
+                    srcs = [b.def_event_of_operand({"c": [t["on"]["p"][0], []]})]
+                    evs, _, _ = mir.operand_sources(b, {"c": [t["on"]["p"][0], []]})
+                    srcs += evs
+                else:
+                    srcs, _, _ = mir.operand_sources(b, t["o"])
+                if any(x in later_state_ops for x in srcs if x is not None):
+                    fresh_edges += [(blk, x) for x in b.succ[blk]]
+            reach = b.pos_reach_set(l.pos, removed_edges=frozenset(fresh_edges))
+            hit = [c0 for c0 in cons if c0.pos in reach]
+            if hit:
+                res.violated(rid, key, f"`Disconnected` at {hit[0].loc} is returned on the strength of a state read taken *before* the sender_count read at {l.loc}: if the last "
+                             "sender sent in between, the receiver reports Disconnected and a later call still hands out the value", where=hit[0].loc)
+            else:
+                res.holds(rid, key, "Disconnected only behind a branch on a state observation made after the sender_count read", where=l.loc)
+    if n < 2:
+        res.violated(rid, "oneshot-decisions", f"expected >= 2 EMPTY-then-sender_count decisions in the oneshot core, found {n}")
+
+
 def run(P, ctx):
     res = Result("C04")
     res.extra["explanation"] = ("Closed-gate, last-handle, conversion, drop-once and drain-before-Disconnected clauses "
@@ -545,4 +695,6 @@ def run(P, ctx):
     clause3(P, res, hs)
     clause4(P, res, hs)
     clause5(P, res)
+    clause6(P, res)
+    clause7(P, res)
     return res
